@@ -156,9 +156,12 @@ func Verif_C16_Expansion() {
 	cfg.Deb.Fields = map[string]string{"K": ref}
 	cfg.Depends = []string{ref}
 	cfg.Overrides = map[string]*Overridables{"deb": {Depends: []string{ref}}}
-	cfg.Contents = files.Contents{{Source: ref, Destination: ref, Expand: true}, {Source: ref, Destination: ref}}
+	// the opt-in applies to an entry of any type (a symlink's src is its target)
+	etype := []string{"", files.TypeSymlink, files.TypeDir, files.TypeRPMGhost, files.TypeConfigNoReplace, files.TypeTree, files.TypeRPMDoc}[v.NondetChoice("entry.type", 7)]
+	cfg.Contents = files.Contents{{Source: ref, Destination: ref, Expand: true, Type: etype}, {Source: ref, Destination: ref, Type: etype}}
 	cfg.expandEnvVars()
 	v.Reach("C16.expand.ran")
+	v.Assert(cfg.Contents[0].Type == etype && cfg.Contents[1].Type == etype && cfg.Contents[0].Expand, "content-entry-keeps-its-other-settings")
 	v.Assert(cfg.Name == want && cfg.Version == want && cfg.Release == want && cfg.Prerelease == want, "version-fields-expanded")
 	v.Assert(cfg.Platform == want && cfg.Arch == want && cfg.Homepage == want && cfg.Maintainer == want, "identity-fields-expanded")
 	v.Assert(cfg.Vendor == want && cfg.Description == want && cfg.RPM.Packager == want, "descriptive-fields-expanded")
